@@ -1841,6 +1841,10 @@ impl<'a> Sim<'a> {
             if r != m {
                 let who = self.keys.index_of(&k.0).map_or_else(|| "unknown-account".to_string(), |i| format!("account{i}"));
                 let role = if k.0 == self.model.sudo { "fee-recipient" } else if self.model.bridges.contains_key(&k.0) { "bridge" } else { "plain" };
+                if role == "bridge" && self.model.block_deposits.iter().any(|d| d.bridge_address.bytes() == k.0) {
+                    // C04: the deposits published for this bridge in this block are not matched by its balance
+                    self.viol.push("C04", "deposit-not-backed-by-equal-credit", "bridge-balance", step, format!("h={h}: bridge {who} has deposits in this block but its balance in asset {} is {r} where the credited amounts give {m}", hex::encode(&k.1[..4])));
+                }
                 self.viol.push("C01", "balance-differs-from-reference-ledger", role, step, format!("h={h}: {who} ({role}) asset {}: chain has {r}, reference ledger has {m} (diff {})", hex::encode(&k.1[..4]), if r > m { format!("+{}", r - m) } else { format!("-{}", m - r) }));
             }
         }
@@ -2129,6 +2133,10 @@ impl<'a> Sim<'a> {
             let prop_id = if matches!(bz, ByzOp::Ext(_)) { "C15" } else { "C06" };
             if accepted && !expect_valid {
                 self.viol.push(prop_id, "invalid-proposal-accepted", &class, self.step, format!("h={h}: node {n} accepted a proposal mutated by `{class}`"));
+                if class == "duplicate-tx" {
+                    // C03: a block in which one signed transaction takes effect twice was accepted
+                    self.viol.push("C03", "replayed-transaction-accepted-in-block", "duplicate-in-proposal", self.step, format!("h={h}: node {n} executed and accepted a proposal containing the same transaction twice"));
+                }
             }
             if !accepted && expect_valid {
                 let msg = res.err().map(|e| e.1).unwrap_or_default();
